@@ -2,6 +2,7 @@
 //! which oracle decides, and which cases count as non-trivial.
 
 use crate::hist::*;
+use crate::counts;
 use crate::models;
 use crate::oracle::{self, Ctx, Dir, Finding};
 use crate::run::{Engine, Outcome};
@@ -308,6 +309,27 @@ pub fn world_engine(prop: &str, thorough: bool) -> Option<WorldEngine> {
             oracle: |cx, _| models::c12(cx),
             nontrivial: |cx, _| models::nt_c12(cx),
         },
+        "C13" => WorldEngine {
+            prop: "C13",
+            profiles: vec![(Profile::Indep, 1)],
+            max_steps,
+            oracle: |cx, _| counts::c13(cx),
+            nontrivial: |cx, _| counts::nt_c13(cx),
+        },
+        "C14" => WorldEngine {
+            prop: "C14",
+            profiles: vec![(Profile::PullCount, 1)],
+            max_steps,
+            oracle: |cx, _| counts::c14(cx),
+            nontrivial: |cx, _| counts::nt_c14(cx),
+        },
+        "C15" => WorldEngine {
+            prop: "C15",
+            profiles: vec![(Profile::FromIterDirect, 1)],
+            max_steps,
+            oracle: |cx, _| counts::c15(cx),
+            nontrivial: |cx, _| counts::nt_c15(cx),
+        },
         "SELF" => WorldEngine {
             prop: "SELF",
             profiles: vec![(Profile::SelfCheck, 1)],
@@ -346,6 +368,9 @@ pub fn rule_text(prop: &str) -> String {
         "C10" => "non-trivial = every member produced a value and at least 2 tuples were delivered",
         "C11" => "non-trivial = at least 2 inner subscriptions (a switch or a hand-over), or both the outer and an inner ended (completion-order race)",
         "C12" => "non-trivial = two probes overlapped in time, or the upstream was restarted",
+        "C13" => "non-trivial = both subscriptions received data and the schedule switched between them at least twice",
+        "C14" => "non-trivial = an item was dropped by filter/skip, or a concat/flatten boundary was crossed (2+ upstream instances), or a reply was deferred",
+        "C15" => "non-trivial = a Pull was sent from inside a data handler, or the sink disposed with items left, or completion was reached after 2+ items",
         _ => "non-trivial = at least one instance was subscribed",
     };
     format!("{gen}{nt}")
